@@ -86,7 +86,7 @@ def judge(r, method, allow_negatives, consistent, viol, known, tags):
             viol.append({"what": "negative tension reported although negatives are disallowed", "detail": float(x.min())})
         scale = max(1.0, np.abs(A_ref).max()) * max(1.0, np.abs(b_ref).max())
         tau = (1e-9 if method is None else 1e-5) * scale
-        if method == "lsq_linear" and not consistent:
+        if method == "lsq_linear" and (not consistent or not RN.consistent(M, b_ref[:-1])):
             tags.append("lsq_linear_inconsistent_no_verdict")
             return
         if allow_negatives and x.min() < -tau:
